@@ -70,26 +70,30 @@ Definition emit_joined (n : node) (t : Z) (s : st) : st * list emitted :=
   if decide (n ∈ JF s) then (s, [])
   else (set_JF (JF s ∪ {[n]}) s, [EJoined n t]).
 
+(* emit, then forget the pending departure / arrival (the three lines shared by the epoch loops and the
+   overdue emitter) *)
+Definition settle_left (n : node) (t : Z) (s : st) : st * list emitted :=
+  let '(s1, out) := emit_left n t s in
+  (set_LE (delete n (LE s1)) (set_LT (delete n (LT s1)) s1), out).
+
+Definition settle_join (n : node) (t : Z) (s : st) : st * list emitted :=
+  let '(s1, out) := emit_joined n t s in
+  (set_JE (delete n (JE s1)) (set_JT (delete n (JT s1)) s1), out).
+
 (* body of the loop of emitPendingLeftForEpochLocked for one map entry *)
 Definition pending_left_one (e : N) (s : st) (p : node * N) : st * list emitted :=
-  let '(n, ne) := p in
-  if N.eqb ne e then
-    match LT s !! n with
-    | None => (set_LE (delete n (LE s)) s, [])
-    | Some t =>
-        let '(s1, out) := emit_left n t s in
-        (set_LE (delete n (LE s1)) (set_LT (delete n (LT s1)) s1), out)
+  if N.eqb p.2 e then
+    match LT s !! p.1 with
+    | None => (set_LE (delete p.1 (LE s)) s, [])
+    | Some t => settle_left p.1 t s
     end
   else (s, []).
 
 Definition pending_join_one (e : N) (s : st) (p : node * N) : st * list emitted :=
-  let '(n, ne) := p in
-  if N.eqb ne e then
-    match JT s !! n with
-    | None => (set_JE (delete n (JE s)) s, [])
-    | Some t =>
-        let '(s1, out) := emit_joined n t s in
-        (set_JE (delete n (JE s1)) (set_JT (delete n (JT s1)) s1), out)
+  if N.eqb p.2 e then
+    match JT s !! p.1 with
+    | None => (set_JE (delete p.1 (JE s)) s, [])
+    | Some t => settle_join p.1 t s
     end
   else (s, []).
 
@@ -105,9 +109,10 @@ Definition emit_pending_left (e : N) (s : st) : st * list emitted :=
 Definition emit_pending_join (e : N) (s : st) : st * list emitted :=
   loop (pending_join_one e) (map_to_list (JE s)) s.
 
-(* assign*EpochLocked: every node with a pending timestamp gets the epoch *)
+(* assign*EpochLocked: `for node := range timestamps { epochs[node] = epoch }` — every node with a
+   pending timestamp gets the epoch, the other entries stay *)
 Definition assign (e : N) (ts : gmap node Z) (ep : gmap node N) : gmap node N :=
-  map_fold (fun n _ acc => <[n := e]> acc) ep ts.
+  ((fun _ => e) <$> ts) ∪ ep.
 
 Section Tracker.
   Variable self : node.
@@ -145,9 +150,7 @@ Section Tracker.
   Definition left_timeout (n : node) (s : st) : st * list emitted :=
     match LT s !! n with
     | None => (s, [])
-    | Some t =>
-        let '(s1, out) := emit_left n t s in
-        (set_LE (delete n (LE s1)) (set_LT (delete n (LT s1)) s1), out)
+    | Some t => settle_left n t s
     end.
 
   Definition reb_start (e : N) (r : reason) (n : node) (s : st) : st * list emitted :=
